@@ -189,7 +189,16 @@ structure Result where
   dek : Dek
 deriving Repr
 
-/-- `vel_settings.get("zero_momentum", default)`: default is True for CP2K, False elsewhere -/
+/-- each engine's own default of `zero_momentum` (the second argument of `vel_settings.get`):
+    cp2k.py `get("zero_momentum", True)`; lammps.py, turtlemdengine.py, ase_engine.py and the
+    infretis_genvel branch of gromacs.py `get("zero_momentum", False)` -/
+def engineDefaultZeroMomentum : Engine → Bool
+  | .cp2k => true
+  | _ => false
+
+/-- `vel_settings.get("zero_momentum", default)`: default is True for CP2K, False elsewhere.
+    `zm` is the entry of the dict that was handed in (`none` = key absent); the dict itself is an
+    input only — the code must not write to it (tie: deep compare before/after). -/
 def zeroMomentumFlag (e : Engine) (zm : Option Bool) : Bool :=
   match zm with
   | some b => b
